@@ -17,6 +17,8 @@ pub mod polynomial;
 pub mod tridiagonal;
 pub mod banded;
 pub mod sparse;
+#[cfg(ohsl_verif)]
+pub mod verif_hooks;
 
 // Re-exports
 pub use self::complex::{Complex, Cmplx};
